@@ -991,3 +991,289 @@ func c08LruWriters(c *Ctx) {
 			return ""
 		}())
 }
+
+// mustReachUnlessAbsent: every exit of f passes a node satisfying sat, except
+// exits taken because an operand is absent / an error is present.
+func mustReachUnlessAbsent(c *Ctx, rule, construct string, f *core.Func, sat func(ast.Node) bool, msg string) {
+	info := f.Info()
+	g := f.Graph()
+	if len(g.Find(sat)) == 0 {
+		c.R.Checkf(rule, construct, c.pos(f.Pos()), false, "%s: the call is gone from %s", msg, f.Name)
+		return
+	}
+	ex := g.ExitsAvoidingE(g.Entry(), sat, func(from *cfg.Block, si int) bool {
+		cond, _, _, ok := g.Cond(from)
+		return !ok || !absentEdge(info, cond, si == 0)
+	})
+	if len(ex) == 0 {
+		c.R.Checkf(rule, construct, c.pos(f.Pos()), true, "%s: holds on every exit of %s that is not taken for a nil operand or an error", msg, f.Name)
+	} else {
+		c.R.Checkf(rule, construct, c.pos(ex[0].Pos), false, "%s — VIOLATED: %s returns at %s (lines %s) without it although nothing is absent", msg, f.Name, c.pos(ex[0].Pos), traceStr(c.P, ex[0].Trace))
+	}
+}
+
+func c10DeleteCallbackUnconditional(c *Ctx) {
+	if f := c.fn("WIRING", "control", "DnsController.invokeCacheDeleteCallback"); f != nil {
+		sat := func(n ast.Node) bool {
+			hit := false
+			ownCalls(n, func(call *ast.CallExpr, _ bool) {
+				if strings.HasSuffix(core.ExprStr(call.Fun), ".cacheDeleteCallback") {
+					hit = true
+				}
+			})
+			return hit
+		}
+		mustReachUnlessAbsent(c, "WIRING", "delete-callback-invoked-for-every-removed-entry@invokeCacheDeleteCallback", f, sat,
+			"the owner-delete callback runs whenever an entry and a callback are present (a guard that skips it, e.g. because a newer entry is stored under the key, leaves the removed entry's addresses in the kernel table)")
+	}
+	// the refresh path installs the new entry through the access callback whenever one is configured
+	if f := c.fn("WIRING", "control", "DnsController.__updateDnsCacheDeadline"); f != nil {
+		info := f.Info()
+		g := f.Graph()
+		n := 0
+		for _, b := range g.CFG.Blocks {
+			if !b.Live {
+				continue
+			}
+			for i, nd := range b.Nodes {
+				hit := false
+				ownCalls(nd, func(call *ast.CallExpr, _ bool) {
+					if strings.HasSuffix(core.ExprStr(call.Fun), ".cacheAccessCallback") {
+						hit = true
+					}
+				})
+				if !hit {
+					continue
+				}
+				n++
+				var extra []string
+				for _, gd := range g.Guards(core.Point{B: b, I: i}) {
+					for _, at := range core.Atoms(gd.Cond, gd.Polarity) {
+						s := core.ExprStr(at.Cond)
+						if strings.Contains(s, "IncludeAnyIp") || strings.Contains(s, "len(") && strings.Contains(strings.ToLower(s), "ip") {
+							extra = append(extra, s)
+						}
+					}
+				}
+				_ = info
+				c.R.Checkf("WIRING", "refresh-installs-regardless-of-answer-content@__updateDnsCacheDeadline", c.pos(nd.Pos()), len(extra) == 0,
+					"the access callback (which replaces the owner's snapshot, also with an empty one) is not conditional on the refreshed answer carrying addresses; conditions found: %v", extra)
+			}
+		}
+		if n == 0 {
+			c.R.Checkf("WIRING", "refresh-installs-regardless-of-answer-content@__updateDnsCacheDeadline", c.pos(f.Pos()), false, "no cacheAccessCallback invocation in __updateDnsCacheDeadline")
+		}
+	}
+}
+
+// C09: inFlight decrements that can reach zero close a retired forwarder
+func c09DecrementCloses(c *Ctx) {
+	const rule = "LIFECYCLE"
+	n := 0
+	for _, f := range c.P.FuncsIn("control") {
+		if f.Decl == nil || !strings.HasPrefix(f.Name, "control.cachedDnsForwarder.") {
+			continue
+		}
+		info := f.Info()
+		g := f.Graph()
+		closeNow := nodeCalls(info, "control.cachedDnsForwarder.closeNow")
+		for _, b := range g.CFG.Blocks {
+			if !b.Live {
+				continue
+			}
+			for _, nd := range b.Nodes {
+				var dec *ast.CallExpr
+				ast.Inspect(nd, func(m ast.Node) bool {
+					if call, ok := m.(*ast.CallExpr); ok {
+						if recv, name, isM := methodCall(call); isM && name == "Add" && core.FieldOf(info, recv) == "cachedDnsForwarder.inFlight" && len(call.Args) == 1 {
+							if tv, ok := info.Types[call.Args[0]]; ok && tv.Value != nil {
+								if v, _ := constant.Int64Val(tv.Value); v < 0 {
+									dec = call
+								}
+							}
+						}
+					}
+					return true
+				})
+				if dec == nil {
+					continue
+				}
+				n++
+				// the decrement is the condition of this block and its "reached zero" edge closes
+				good := false
+				if cond, tr, _, ok := g.Cond(b); ok && nd == ast.Node(cond) {
+					for _, at := range core.Atoms(cond, true) {
+						if be, ok := at.Cond.(*ast.BinaryExpr); ok && be.Op == token.EQL && core.ExprStr(be.Y) == "0" && at.Polarity {
+							if len(g.ExitsAvoiding(core.Point{B: tr, I: 0}, closeNow)) == 0 {
+								good = true
+							}
+						}
+					}
+				}
+				c.R.Checkf(rule, "last-in-flight-decrement-closes-a-retired-forwarder@"+strings.TrimPrefix(f.Name, "control."), c.pos(dec.Pos()), good,
+					"%s is tested for having reached zero and that edge calls closeNow (together with the retired flag): the goroutine that takes the in-flight count to zero after retire() has run is the only one left to close the forwarder", core.ExprStr(dec))
+			}
+		}
+	}
+	c.R.Floor(rule+"/decrements", n, 2)
+}
+
+// C12: every key of the userspace trie is the Prefix2bin128 of one prefix of
+// the set, and every prefix contributes one (no shortcut key, no early exit).
+func c12TrieKeys(c *Ctx) {
+	const rule = "PREFIXLEN"
+	f := c.fn(rule, "pkg/trie", "NewTrieFromPrefixes")
+	if f == nil {
+		return
+	}
+	info := f.Info()
+	var ranged string
+	ast.Inspect(f.Body, func(m ast.Node) bool {
+		if rs, ok := m.(*ast.RangeStmt); ok && ranged == "" {
+			ranged = core.ExprStr(rs.X)
+		}
+		return true
+	})
+	if ranged == "" {
+		c.R.Unresolved(rule, "NewTrieFromPrefixes: loop over the prefixes")
+		return
+	}
+	perItemLoop(c, rule, f, ranged, "prefix")
+	n, bad := 0, ""
+	ast.Inspect(f.Body, func(m ast.Node) bool {
+		call, ok := m.(*ast.CallExpr)
+		if !ok {
+			return true
+		}
+		id, ok := call.Fun.(*ast.Ident)
+		if !ok || id.Name != "append" || len(call.Args) < 2 {
+			return true
+		}
+		if bt, ok := info.TypeOf(call.Args[1]).Underlying().(*types.Basic); !ok || bt.Info()&types.IsString == 0 {
+			return true
+		}
+		n++
+		for _, a := range call.Args[1:] {
+			ok2 := false
+			if inner, isC := ast.Unparen(a).(*ast.CallExpr); isC {
+				if cal := core.Callee(info, inner); cal != nil && cal.Name() == "Prefix2bin128" {
+					ok2 = true
+				}
+			}
+			if !ok2 && bad == "" {
+				bad = fmt.Sprintf("append of %s at %s", core.ExprStr(a), c.pos(call.Pos()))
+			}
+		}
+		return true
+	})
+	c.R.Checkf(rule, "trie-keys-are-prefix2bin128-of-each-prefix@NewTrieFromPrefixes", c.pos(f.Pos()), bad == "" && n >= 1,
+		"every key handed to the trie is Prefix2bin128(prefix) (%d append site(s))%s", n, func() string {
+			if bad != "" {
+				return " — VIOLATED: " + bad + ": a key that is not derived by the one length rule (bits + 96 for IPv4) — e.g. the empty key for 0.0.0.0/0 — makes the userspace set cover addresses the kernel key does not"
+			}
+			return ""
+		}())
+}
+
+// C13: the overflow FIFO's shrink copies the whole backlog
+func c13ShrinkCopies(c *Ctx) {
+	const rule = "DRAIN"
+	f := c.fn(rule, "control", "UdpTaskQueue.popOverflowTask")
+	if f == nil {
+		return
+	}
+	info := f.Info()
+	n, bad := 0, ""
+	ast.Inspect(f.Body, func(m ast.Node) bool {
+		call, ok := m.(*ast.CallExpr)
+		if !ok {
+			return true
+		}
+		id, ok := call.Fun.(*ast.Ident)
+		if !ok || id.Name != "copy" || len(call.Args) != 2 {
+			return true
+		}
+		dst, ok := ast.Unparen(call.Args[0]).(*ast.Ident)
+		if !ok {
+			return true
+		}
+		n++
+		obj := info.ObjectOf(dst)
+		var mk *ast.CallExpr
+		ast.Inspect(f.Body, func(k ast.Node) bool {
+			if as, ok := k.(*ast.AssignStmt); ok && len(as.Lhs) == 1 && len(as.Rhs) == 1 {
+				if lid, ok := as.Lhs[0].(*ast.Ident); ok && info.ObjectOf(lid) == obj {
+					if cl, ok := as.Rhs[0].(*ast.CallExpr); ok {
+						if fid, ok := cl.Fun.(*ast.Ident); ok && fid.Name == "make" {
+							mk = cl
+						}
+					}
+				}
+			}
+			return true
+		})
+		want := "len(" + core.ExprStr(call.Args[1]) + ")"
+		if mk == nil || len(mk.Args) < 2 || nospace(core.ExprStr(mk.Args[1])) != nospace(want) {
+			got := "?"
+			if mk != nil && len(mk.Args) >= 2 {
+				got = core.ExprStr(mk.Args[1])
+			}
+			bad = fmt.Sprintf("copy(%s, %s): the destination was made with length %s, not %s", dst.Name, core.ExprStr(call.Args[1]), got, want)
+		}
+		return true
+	})
+	c.R.Checkf(rule, "overflow-shrink-keeps-the-backlog@popOverflowTask", c.pos(f.Pos()), bad == "" && n >= 1,
+		"the shrunk overflow slice is made with the length of the backlog it is copied from (%d copy site(s))%s", n, func() string {
+			if bad != "" {
+				return " — VIOLATED: " + bad + ": copy() copies min(len(dst), len(src)) elements, so the remaining backlog of accepted tasks is dropped"
+			}
+			return ""
+		}())
+}
+
+// C13: a core always re-joins the shared tuple-owner tracker (nil only for a nil core)
+func c13TrackerAlways(c *Ctx) {
+	const rule = "TRACKED"
+	f := c.fn(rule, "control", "controlPlaneCore.getUdpConnStateTracker")
+	if f == nil {
+		return
+	}
+	info := f.Info()
+	g := f.Graph()
+	var recv types.Object
+	if len(f.Decl.Recv.List[0].Names) > 0 {
+		recv = info.ObjectOf(f.Decl.Recv.List[0].Names[0])
+	}
+	bad := ""
+	for _, b := range g.CFG.Blocks {
+		if !b.Live {
+			continue
+		}
+		for i, nd := range b.Nodes {
+			rs, ok := nd.(*ast.ReturnStmt)
+			if !ok || len(rs.Results) != 1 || core.ExprStr(rs.Results[0]) != "nil" {
+				continue
+			}
+			okGuard := false
+			for _, gd := range g.Guards(core.Point{B: b, I: i}) {
+				for _, at := range core.Atoms(gd.Cond, gd.Polarity) {
+					if be, isB := at.Cond.(*ast.BinaryExpr); isB && be.Op == token.EQL && at.Polarity && core.ExprStr(be.Y) == "nil" {
+						if id, isId := ast.Unparen(be.X).(*ast.Ident); isId && info.ObjectOf(id) == recv {
+							okGuard = true
+						}
+					}
+				}
+			}
+			if !okGuard && bad == "" {
+				bad = "return nil at " + c.pos(rs.Pos())
+			}
+		}
+	}
+	c.R.Checkf(rule, "core-always-joins-the-shared-tuple-tracker@getUdpConnStateTracker", c.pos(f.Pos()), bad == "",
+		"getUdpConnStateTracker returns no tracker only for a nil core%s", func() string {
+			if bad != "" {
+				return " — VIOLATED: " + bad + ": an endpoint of a closed (old-generation) core then releases its tuples without the shared owner accounting — the kernel entries are deleted while another endpoint still owns them, and the tracker never reaches zero for them"
+			}
+			return ""
+		}())
+}
